@@ -104,6 +104,15 @@ func init() {
 		o := errOrigin(st, a[0])
 		return o != nil && o.K == "call" && (o.S == "oidc.ErrInvalidRequestRedirectURI" || rdFuncs[o.S])
 	}
+	// errOrig(e, oidc.ErrX): the error value e was built by that constructor (through With* decorators, local variables
+	// and the results of helpers interpreted in place)
+	customPreds["errOrig"] = func(st *fstate, a []*Term) bool {
+		if len(a) != 2 {
+			return false
+		}
+		o := errOrigin(st, a[0])
+		return o != nil && o.K == "call" && nameMatches(a[1].S, o.S)
+	}
 	customPreds["gerr"] = func(st *fstate, a []*Term) bool {
 		o := errOrigin(st, a[0])
 		return o != nil && o.K == "call" && gerrFuncs[o.S]
